@@ -85,3 +85,6 @@ type FSError struct {
 }
 
 func (e *FSError) Error() string { return e.Op + " " + e.Path + ": model file system error" }
+
+// FSRemove deletes the file at model path p (no error if it does not exist).
+func FSRemove(p string) { os.Remove(FSPath(p)) }
